@@ -55,6 +55,10 @@ def C07(tier):
     if not quick:
         for rule, opts in [('wigm-prf-batch', {}), ('scotland', {}), ('cfer-batch', {}), ('mpls', {})]:
             r['jobs'].append(djob('tie2', rule, opts, 4, 2, 2, 5, symtie=True, budget=1500, weight=5))
+    # a concrete, non-self-inverse [tie ...] option read by the real reader (the symbolic tie ranks above are injected after parsing)
+    for rule, opts in [('scotland', {}), ('wigm-prf', {}), ('meek', FX3), ('qpq', {})]:
+        r['jobs'].append(grid.job(rule, opts, 3, 2, 2, 5 if rule != 'qpq' else 4, ['C07'], 300 if quick else 1500, tie_list=[2, 3, 1]))
+    r['jobs'].append(grid.job('cfer', {}, 4, 2, 1, 6, ['C07'], 300 if quick else 1500, tie_list=[3, 1, 4, 2]))
     r['require_reach'] = r['require_reach'] + ['no-tie-logged', 'tie-logged']
     r['assumptions'] = r['assumptions'] + DIFF_ASSUME[-1:]
     return r
